@@ -555,3 +555,16 @@ Definition cellid_face (id : Z) : Z := Z.shiftr id 61.
 Definition cell_rect_bound_axes (id : Z) : result Z :=
   let f := cellid_face id in
   if (f <? 0) || (s2_NumFaces <=? f) then Panic else Ok f.
+
+(** * Queries on a decoded Polygon (s2/polygon.go) *)
+(** Polygon.IsFull: exactly one loop and it is the full loop (one vertex, origin inside).
+    initEdgesAndIndex returns before creating the ShapeIndex when the polygon is full, and
+    ContainsPoint / ContainsCell / IntersectsCell start with [p.index.IsFresh()] resp.
+    [p.index.Iterator()]: a nil pointer dereference in that case. *)
+Definition cloops_full (ls : list cloop) : bool :=
+  match ls with
+  | [l] => (len (cl_vertices l) =? 1) && cl_origin_inside l
+  | _ => false
+  end.
+Definition polygon_query_entry (ls : list cloop) : result unit :=
+  if cloops_full ls then Panic else Ok tt.
